@@ -552,8 +552,9 @@ def gen_sun(rng):
     m = rng.random()
     if m < 0.25:
         return _unit_rand(rng) * nr, S, True, "random"
-    if m < 0.40:   # around the shadow axis (umbra) and the anti-solar hemisphere
-        return mk(rng.uniform(0, 1.3 * (a0 + b0))), S, True, "shadow"
+    if m < 0.40:   # around the shadow axis (umbra) and the anti-solar hemisphere; a third exactly ON the axis
+        c_axis = rng.choice([0.0, 0.0, 10 ** rng.uniform(-17, -9)]) if rng.random() < 0.35 else rng.uniform(0, 1.3 * (a0 + b0))
+        return mk(c_axis), S, True, "shadow"
     if m < 0.50:   # sunward hemisphere incl. the terminator plane
         u = g.unit(sh * rng.choice([1.0, 10 ** rng.uniform(-7, -1)]) + wv * rng.uniform(0, 1))
         return u * nr, S, rng.random() < 0.3, "sunward"
